@@ -178,15 +178,25 @@ func (c *Ctx) ruleErrorChangesNothing(fn *ssa.Function) {
 			starts = append(starts, p.blk)
 		}
 		for _, st := range starts {
-			seen, _ := ir.Reach(fn, st, nil)
-			for _, r := range ir.Returns(fn) {
-				if !seen[r.Block().Index] || retClass(fn, r) != "fail" {
-					continue
+			// the error operand of each return, evaluated along the paths from the mutation
+			for r, cls := range retClassesFrom(fn, st, -1) {
+				switch cls {
+				case "fail":
+					ok, det = false, "the failing return at "+c.IPos(r)+" is reachable after the "+p.desc
+				case "maybe":
+					// an error handed on from a later call: the operation can still fail after it changed the collection
+					later := (*ssa.Call)(nil)
+					if len(r.Results) > 0 {
+						later = callOf(r.Results[len(r.Results)-1])
+					}
+					// a further step of the same operation on the receiver itself is judged as that
+					// mutator's own atomicity; a failure of a call on another object (the entry or
+					// list being validated) after the collection was changed is not
+					sameRecv := later != nil && len(later.Call.Args) > 0 && len(fn.Params) > 0 && ir.StripConv(later.Call.Args[0]) == ssa.Value(fn.Params[0])
+					if later != nil && later != p.call && !sameRecv {
+						ok, det = false, "the return at "+c.IPos(r)+" hands on the error of a later call ("+ir.CallID(callOf(r.Results[len(r.Results)-1]))+") after the "+p.desc+": a failure there leaves the collection modified"
+					}
 				}
-				if st == r.Block() && p.call == nil {
-					// same block: the store must precede the return (always true) -> violation
-				}
-				ok, det = false, "the failing return at "+c.IPos(r)+" is reachable after the "+p.desc
 			}
 		}
 	}
